@@ -3,7 +3,12 @@ import UrcuVerif.Wfs.Model
 Inductive invariant of the wfstack model (helper lemmas; statements are in `Props/C11.lean`).
 Pattern of `notes/calibration_wfstack_chain.lean.txt`: ghost abstract stack + *logical successor*
 chain with in-flight pushes, extended with explicit TSO store buffers, pop with cmpxchg, popped
-lists with iterators, node recycling and the mutex / single-consumer schemes.
+lists with iterators, node recycling and the three synchronisation schemes: mutex, single
+consumer, and concurrent poppers under RCU (clauses `popR2` / `popR3` with `Prot`: the node a
+popper loaded cannot be recycled under it; `retired_rcu`, `retired_nx`, `cs_lt`, `gp_lt`: the
+abstract grace period).  Proof engineering: the scheme predicates are kept folded
+(`hasRightP`, `ProtP` over the state components they read) in the steps that do not touch the
+lock / the sections / the node life cycle, so that `grind` does not case-split on the scheme.
 -/
 set_option linter.unusedVariables false
 namespace UrcuVerif.Wfs
@@ -116,6 +121,43 @@ theorem rd_cases (s : State) (t n : Nat) :
   · next v h => left; exact bufVal_some h
   · next h => right; exact ⟨rfl, bufVal_none h⟩
 
+/-- `hasRight` / `hasRightAll` as predicates of the state components they read (so that steps which
+leave the lock and the sections alone keep them syntactically) -/
+def hasRightP (c : Cfg) (lock : Option Nat) (cs : Nat → Nat) (t : Nat) : Prop :=
+  (c.scheme = .mutex ∧ lock = some t) ∨ (c.scheme = .single ∧ t = c.consumer) ∨
+  (c.scheme = .rcu ∧ cs t ≠ 0) ∨ c.scheme = .unprotected
+
+def hasRightAllP (c : Cfg) (lock : Option Nat) (t : Nat) : Prop :=
+  (c.scheme = .mutex ∧ lock = some t) ∨ (c.scheme = .single ∧ t = c.consumer) ∨
+  c.scheme = .rcu ∨ c.scheme = .unprotected
+
+theorem hasRight_eq (c : Cfg) (s : State) (t : Nat) : hasRight c s t = hasRightP c s.lock s.cs t := rfl
+theorem hasRightAll_eq (c : Cfg) (s : State) (t : Nat) : hasRightAll c s t = hasRightAllP c s.lock t := rfl
+
+/-- mutex / single consumer: at most one thread holds the pop right -/
+theorem hrP_excl {c : Cfg} (wf : c.scheme ≠ .unprotected) (hn : c.scheme ≠ .rcu) {lock cs t u}
+    (h1 : hasRightP c lock cs t) (h2 : hasRightP c lock cs u) : t = u := by
+  simp only [hasRightP] at h1 h2; grind
+
+theorem hrP_excl_all {c : Cfg} (wf : c.scheme ≠ .unprotected) (hn : c.scheme ≠ .rcu) {lock cs t u}
+    (h1 : hasRightAllP c lock t) (h2 : hasRightP c lock cs u) : t = u := by
+  simp only [hasRightP, hasRightAllP] at h1 h2; grind
+
+/-- RCU: the pop right is an open read-side section -/
+theorem hrP_cs {c : Cfg} (hr : c.scheme = .rcu) {lock cs t} (h : hasRightP c lock cs t) : cs t ≠ 0 := by
+  simp only [hasRightP] at h; grind
+
+/-- node `h`, referenced by a popper whose section began at `cst` (it loaded `head = h`), cannot be
+recycled under it: it is not free and not being re-pushed; under mutex / single consumer it is
+still in the stack; under RCU, if it was handed out meanwhile (to another popper), that happened
+after the popper's section began, so no grace period that started after the hand-out can have
+completed -/
+def ProtP (c : Cfg) (nst : Nat → NSt) (cst : Nat) (h : Nat) : Prop :=
+  isNode h ∧ nst h ≠ .free ∧ (∀ u, nst h ≠ .own u) ∧ (c.scheme ≠ .rcu → nst h = .inStack) ∧
+  (∀ τ, nst h = .retired τ → cst < τ)
+
+def Prot (c : Cfg) (s : State) (t h : Nat) : Prop := ProtP c s.nst (s.cs t) h
+
 structure Inv (c : Cfg) (s : State) : Prop where
   chain : Chain s s.head s.abs
   pchain : ∀ t, Chain s (s.cur t) (s.priv t)
@@ -135,9 +177,13 @@ structure Inv (c : Cfg) (s : State) : Prop where
   pend_pb : ∀ t u a b b', s.pc t = .pushSt a b → (a, b') ∈ s.buf u → b' = 0
   pend_bb : ∀ t u a b b', (a, b) ∈ s.buf t → (a, b') ∈ s.buf u → b ≠ 0 → b' ≠ 0 → t = u ∧ b = b'
   popR1 : ∀ t b, s.pc t = .popLd b → hasRight c s t
-  popR2 : ∀ t b h, s.pc t = .popSync b h → hasRight c s t ∧ h ∈ s.abs
-  popR3 : ∀ t b h nx, s.pc t = .popCas b h nx → hasRight c s t ∧ h ∈ s.abs ∧ nx ≠ 0 ∧
+  popR2 : ∀ t b h, s.pc t = .popSync b h → hasRight c s t ∧ Prot c s t h
+  popR3 : ∀ t b h nx, s.pc t = .popCas b h nx → hasRight c s t ∧ Prot c s t h ∧ nx ≠ 0 ∧
             (s.next h = nx ∨ (h, nx) ∈ s.buf t)
+  retired_rcu : ∀ a τ, s.nst a = .retired τ → c.scheme = .rcu ∧ τ < s.clock
+  retired_nx : ∀ a τ, s.nst a = .retired τ → s.next a ≠ 0
+  cs_lt : ∀ t, s.cs t ≠ 0 → s.cs t < s.clock ∧ t < c.n ∧ s.gpDone ≤ s.cs t
+  gp_lt : s.gpDone < s.clock ∧ ∀ a, s.gpCur = some a → a < s.clock
   hist : Valid s.hist s.abs
 
 theorem inv_init (c) : Inv c init := by
@@ -157,13 +203,27 @@ theorem chain_cons_inv {s : State} {h l} (c : Chain s h l) (hn : h ≠ END) :
 macro "frame_tac" : tactic => `(tactic| (
   intro u hp; refine ⟨u, ?_⟩; simp only [PendC, upd] at *; grind))
 
+/-- remaining clauses of a step that leaves the lock, the sections and the node life cycle alone -/
 macro "rest_tac" : tactic => `(tactic| (
-  all_goals (simp only [upd, hasRight] at *)
+  all_goals (first | assumption | skip)
+  all_goals (simp only [upd, hasRight_eq, hasRightAll_eq, Prot] at *)
   all_goals grind))
 
-theorem inv_pushBegin (c : Cfg) {s s' : State} (h : Inv c s) (t n)
+/-- … of a step that changes the node life cycle: `Prot` unfolded -/
+macro "rest_tac_p" : tactic => `(tactic| (
+  all_goals (first | assumption | skip)
+  all_goals (simp only [upd, hasRight_eq, hasRightAll_eq, Prot, ProtP, released] at *)
+  all_goals grind))
+
+/-- … of a step that touches the lock / the sections: scheme predicates unfolded -/
+macro "rest_tac_u" : tactic => `(tactic| (
+  all_goals (first | assumption | skip)
+  all_goals (simp only [upd, hasRight_eq, hasRightAll_eq, Prot, ProtP, hasRightP, hasRightAllP, released] at *)
+  all_goals grind))
+
+theorem inv_pushBegin (c : Cfg) (wf : c.WF) {s s' : State} (h : Inv c s) (t n)
     (st : step c s (.pushBegin t n) = some s') : Inv c s' := by
-  obtain ⟨hc, hpc, hnd, hpnd, habs, hpriv, hpcX, hown, hpcSt, hbI, hbC, hbN, hpp, hpb, hbb, hr1, hr2, hr3, hh⟩ := h
+  obtain ⟨hc, hpc, hnd, hpnd, habs, hpriv, hpcX, hown, hpcSt, hbI, hbC, hbN, hpp, hpb, hbb, hr1, hr2, hr3, hret, hrnx, hcs, hgp, hh⟩ := h
   simp only [step] at st
   split at st
   · next g =>
@@ -179,12 +239,12 @@ theorem inv_pushBegin (c : Cfg) {s s' : State} (h : Inv c s) (t n)
       intro a ha b hl
       refine lnext_frame (s := s) rfl ?_ hl
       frame_tac
-    rest_tac
+    rest_tac_p
   · simp at st
 
-theorem inv_pushX (c : Cfg) {s s' : State} (h : Inv c s) (t)
+theorem inv_pushX (c : Cfg) (wf : c.WF) {s s' : State} (h : Inv c s) (t)
     (st : step c s (.pushX t) = some s') : Inv c s' := by
-  obtain ⟨hc, hpc, hnd, hpnd, habs, hpriv, hpcX, hown, hpcSt, hbI, hbC, hbN, hpp, hpb, hbb, hr1, hr2, hr3, hh⟩ := h
+  obtain ⟨hc, hpc, hnd, hpnd, habs, hpriv, hpcX, hown, hpcSt, hbI, hbC, hbN, hpp, hpb, hbb, hr1, hr2, hr3, hret, hrnx, hcs, hgp, hh⟩ := h
   simp only [step] at st
   split at st
   · next n hp =>
@@ -213,13 +273,13 @@ theorem inv_pushX (c : Cfg) {s s' : State} (h : Inv c s) (t)
       · simp only [List.nodup_cons]; exact ⟨hnabs, hnd⟩
       case hist =>
         exact hh.step t (.push n) (by simp [apply, head_end_iff hc])
-      rest_tac
+      rest_tac_p
     · simp at st
   all_goals (first | (simp at st; done) | skip)
 
-theorem inv_pushSt (c : Cfg) {s s' : State} (h : Inv c s) (t)
+theorem inv_pushSt (c : Cfg) (wf : c.WF) {s s' : State} (h : Inv c s) (t)
     (st : step c s (.pushSt t) = some s') : Inv c s' := by
-  obtain ⟨hc, hpc, hnd, hpnd, habs, hpriv, hpcX, hown, hpcSt, hbI, hbC, hbN, hpp, hpb, hbb, hr1, hr2, hr3, hh⟩ := h
+  obtain ⟨hc, hpc, hnd, hpnd, habs, hpriv, hpcX, hown, hpcSt, hbI, hbC, hbN, hpp, hpb, hbb, hr1, hr2, hr3, hret, hrnx, hcs, hgp, hh⟩ := h
   simp only [step] at st
   split at st
   · next n o hp =>
@@ -235,13 +295,14 @@ theorem inv_pushSt (c : Cfg) {s s' : State} (h : Inv c s) (t)
       intro a ha b hl
       refine lnext_frame (s := s) rfl ?_ hl
       intro u hp; refine ⟨u, ?_⟩; simp only [PendC, upd, List.mem_append, List.mem_singleton] at *; grind
-    all_goals (simp only [upd, hasRight, List.mem_append, List.mem_singleton] at *)
+    all_goals (first | assumption | skip)
+    all_goals (simp only [upd, hasRight_eq, hasRightAll_eq, Prot, List.mem_append, List.mem_singleton] at *)
     all_goals grind
   all_goals (first | (simp at st; done) | skip)
 
-theorem inv_flush (c : Cfg) {s s' : State} (h : Inv c s) (t)
+theorem inv_flush (c : Cfg) (wf : c.WF) {s s' : State} (h : Inv c s) (t)
     (st : step c s (.flush t) = some s') : Inv c s' := by
-  obtain ⟨hc, hpc, hnd, hpnd, habs, hpriv, hpcX, hown, hpcSt, hbI, hbC, hbN, hpp, hpb, hbb, hr1, hr2, hr3, hh⟩ := h
+  obtain ⟨hc, hpc, hnd, hpnd, habs, hpriv, hpcX, hown, hpcSt, hbI, hbC, hbN, hpp, hpb, hbb, hr1, hr2, hr3, hret, hrnx, hcs, hgp, hh⟩ := h
   simp only [step] at st
   split at st
   · next m v rest hb =>
@@ -293,7 +354,8 @@ theorem inv_flush (c : Cfg) {s s' : State} (h : Inv c s) (t)
       intro a ha b hl
       exact key a (Or.inr ⟨u, (hpriv u a).1 ha⟩) b hl
     all_goals (clear key hc hpc)
-    all_goals (simp only [upd, hasRight] at *)
+    all_goals (first | assumption | skip)
+    all_goals (simp only [upd, hasRight_eq, hasRightAll_eq, Prot, ProtP] at *)
     all_goals grind
   · simp at st
 
@@ -312,35 +374,37 @@ macro "simple_frames" : tactic => `(tactic| (
      refine lnext_frame (s := s) rfl ?_ hl
      frame_tac)))
 
-theorem inv_lock (c : Cfg) {s s' : State} (h : Inv c s) (t)
+theorem inv_lock (c : Cfg) (wf : c.WF) {s s' : State} (h : Inv c s) (t)
     (st : step c s (.lock t) = some s') : Inv c s' := by
-  obtain ⟨hc, hpc, hnd, hpnd, habs, hpriv, hpcX, hown, hpcSt, hbI, hbC, hbN, hpp, hpb, hbb, hr1, hr2, hr3, hh⟩ := h
+  obtain ⟨hc, hpc, hnd, hpnd, habs, hpriv, hpcX, hown, hpcSt, hbI, hbC, hbN, hpp, hpb, hbb, hr1, hr2, hr3, hret, hrnx, hcs, hgp, hh⟩ := h
   simp only [step] at st
   split at st
   · next g =>
     simp only [Option.some.injEq] at st; subst st
+    unfold Cfg.WF at wf
     constructor
     · simple_frames
     · simple_frames
-    rest_tac
+    rest_tac_u
   · simp at st
 
-theorem inv_unlock (c : Cfg) {s s' : State} (h : Inv c s) (t)
+theorem inv_unlock (c : Cfg) (wf : c.WF) {s s' : State} (h : Inv c s) (t)
     (st : step c s (.unlock t) = some s') : Inv c s' := by
-  obtain ⟨hc, hpc, hnd, hpnd, habs, hpriv, hpcX, hown, hpcSt, hbI, hbC, hbN, hpp, hpb, hbb, hr1, hr2, hr3, hh⟩ := h
+  obtain ⟨hc, hpc, hnd, hpnd, habs, hpriv, hpcX, hown, hpcSt, hbI, hbC, hbN, hpp, hpb, hbb, hr1, hr2, hr3, hret, hrnx, hcs, hgp, hh⟩ := h
   simp only [step] at st
   split at st
   · next g =>
     simp only [Option.some.injEq] at st; subst st
+    unfold Cfg.WF at wf
     constructor
     · simple_frames
     · simple_frames
-    rest_tac
+    rest_tac_u
   · simp at st
 
-theorem inv_empty (c : Cfg) {s s' : State} (h : Inv c s) (t)
+theorem inv_empty (c : Cfg) (wf : c.WF) {s s' : State} (h : Inv c s) (t)
     (st : step c s (.empty t) = some s') : Inv c s' := by
-  obtain ⟨hc, hpc, hnd, hpnd, habs, hpriv, hpcX, hown, hpcSt, hbI, hbC, hbN, hpp, hpb, hbb, hr1, hr2, hr3, hh⟩ := h
+  obtain ⟨hc, hpc, hnd, hpnd, habs, hpriv, hpcX, hown, hpcSt, hbI, hbC, hbN, hpp, hpb, hbb, hr1, hr2, hr3, hret, hrnx, hcs, hgp, hh⟩ := h
   simp only [step] at st
   split at st
   · next g =>
@@ -353,9 +417,9 @@ theorem inv_empty (c : Cfg) {s s' : State} (h : Inv c s) (t)
     rest_tac
   · simp at st
 
-theorem inv_popBegin (c : Cfg) {s s' : State} (h : Inv c s) (t b)
+theorem inv_popBegin (c : Cfg) (wf : c.WF) {s s' : State} (h : Inv c s) (t b)
     (st : step c s (.popBegin t b) = some s') : Inv c s' := by
-  obtain ⟨hc, hpc, hnd, hpnd, habs, hpriv, hpcX, hown, hpcSt, hbI, hbC, hbN, hpp, hpb, hbb, hr1, hr2, hr3, hh⟩ := h
+  obtain ⟨hc, hpc, hnd, hpnd, habs, hpriv, hpcX, hown, hpcSt, hbI, hbC, hbN, hpp, hpb, hbb, hr1, hr2, hr3, hret, hrnx, hcs, hgp, hh⟩ := h
   simp only [step] at st
   split at st
   · next g =>
@@ -366,9 +430,9 @@ theorem inv_popBegin (c : Cfg) {s s' : State} (h : Inv c s) (t b)
     rest_tac
   · simp at st
 
-theorem inv_popLd (c : Cfg) {s s' : State} (h : Inv c s) (t)
+theorem inv_popLd (c : Cfg) (wf : c.WF) {s s' : State} (h : Inv c s) (t)
     (st : step c s (.popLd t) = some s') : Inv c s' := by
-  obtain ⟨hc, hpc, hnd, hpnd, habs, hpriv, hpcX, hown, hpcSt, hbI, hbC, hbN, hpp, hpb, hbb, hr1, hr2, hr3, hh⟩ := h
+  obtain ⟨hc, hpc, hnd, hpnd, habs, hpriv, hpcX, hown, hpcSt, hbI, hbC, hbN, hpp, hpb, hbb, hr1, hr2, hr3, hret, hrnx, hcs, hgp, hh⟩ := h
   simp only [step] at st
   split at st
   · next b hp =>
@@ -388,15 +452,21 @@ theorem inv_popLd (c : Cfg) {s s' : State} (h : Inv c s) (t)
         rcases chain_head hc with ⟨e, _⟩ | ⟨_, r, e⟩
         · exact absurd e he
         · rw [e]; simp
+      have hin := (habs _).1 hmem
+      have hnode : isNode s.head := by
+        rcases chain_head hc with ⟨e, _⟩ | ⟨e, _⟩
+        · exact absurd e he
+        · exact e
+      have hR := hr1 t b hp
       constructor
       · simple_frames
       · simple_frames
-      rest_tac
+      rest_tac_p
   all_goals (first | (simp at st; done) | skip)
 
-theorem inv_popSync (c : Cfg) {s s' : State} (h : Inv c s) (t)
+theorem inv_popSync (c : Cfg) (wf : c.WF) {s s' : State} (h : Inv c s) (t)
     (st : step c s (.popSync t) = some s') : Inv c s' := by
-  obtain ⟨hc, hpc, hnd, hpnd, habs, hpriv, hpcX, hown, hpcSt, hbI, hbC, hbN, hpp, hpb, hbb, hr1, hr2, hr3, hh⟩ := h
+  obtain ⟨hc, hpc, hnd, hpnd, habs, hpriv, hpcX, hown, hpcSt, hbI, hbC, hbN, hpp, hpb, hbb, hr1, hr2, hr3, hret, hrnx, hcs, hgp, hh⟩ := h
   simp only [step] at st
   split at st
   · next b h0 hp =>
@@ -404,7 +474,7 @@ theorem inv_popSync (c : Cfg) {s s' : State} (h : Inv c s) (t)
     split at st
     · split at st
       · simp only [Option.some.injEq] at st; subst st
-        exact ⟨hc, hpc, hnd, hpnd, habs, hpriv, hpcX, hown, hpcSt, hbI, hbC, hbN, hpp, hpb, hbb, hr1, hr2, hr3, hh⟩
+        exact ⟨hc, hpc, hnd, hpnd, habs, hpriv, hpcX, hown, hpcSt, hbI, hbC, hbN, hpp, hpb, hbb, hr1, hr2, hr3, hret, hrnx, hcs, hgp, hh⟩
       · simp only [Option.some.injEq] at st; subst st
         constructor
         · simple_frames
